@@ -5,7 +5,7 @@
    a future's result is what its task returned. *)
 From Coq Require Import ZArith List Bool Permutation Lia.
 Import ListNotations.
-From TD Require Import Model.C12_Chunk Model.C12_Sched Model.C12_Map Proofs.C12_ChunkP Proofs.C12_SchedP Proofs.C12_AssignP Proofs.C12_InPlaceP Proofs.C12_MapP.
+From TD Require Import Model.C12_Chunk Model.C12_Sched Model.C12_Map Model.C12_Meta Proofs.C12_ChunkP Proofs.C12_SchedP Proofs.C12_AssignP Proofs.C12_InPlaceP Proofs.C12_MapP Proofs.C12_MetaP Proofs.C12_FailP.
 Open Scope nat_scope.
 
 (* ================================================================= the partition *)
@@ -283,6 +283,27 @@ Theorem C12_mt_inplace_keeps_identities : forall fn o d self others out pi f',
 Proof. exact mt_inplace_keeps_identities. Qed.
 Print Assumptions C12_mt_inplace_keeps_identities.
 
+(* the METADATA of the result (Model/C12_Meta.v): batch size, dim names, device and lock of the result and of every nested
+   tensordict in it are those of the single-threaded form — for every nesting, every batch_size= / device= / names= override
+   (given as torch.Size / torch.device or as list / string), inplace, checked on or off, and every out= (also locked, of another
+   batch size or device, or lacking entries); exceptions included *)
+Theorem C12_mt_meta_eq_st : forall o dev self names out,
+  mt_meta o dev names self out = st_meta o dev names self out.
+Proof. exact mt_meta_eq_st_meta. Qed.
+Print Assumptions C12_mt_meta_eq_st.
+
+(* in place the metadata is untouched; out of place in checked mode (the _fast_apply default) the root carries names= *)
+Theorem C12_mt_meta_root : forall o dev self names out,
+  (mo_inplace o = true -> mt_meta o dev names self out = MOk self) /\
+  (forall nm r, mo_inplace o = false -> mo_checked o = true -> names = Some nm -> out = None ->
+     mt_meta o dev names self out = MOk r -> match r with MNode m _ => m_names m = nm end).
+Proof.
+  intros o dev self names out. split.
+  - intro H. now apply meta_inplace.
+  - intros nm r Hip Hc -> ->. now apply meta_root_names.
+Qed.
+Print Assumptions C12_mt_meta_root.
+
 (* ================================================================= multithreaded writers *)
 (* memmap_ / memmap / memmap_like: every completion order of the writer tasks leaves the same value under every key *)
 Theorem C12_writers_order_free : forall ops1 ops2 d0,
@@ -312,6 +333,23 @@ Theorem C12_consolidate_order_free : forall (B : Type) (chunks : list (list B)) 
   run_assign ws storage = concat chunks.
 Proof. intro B. exact (@consolidate_order_free B). Qed.
 Print Assumptions C12_consolidate_order_free.
+
+(* a FAILING writer task (repair S2): the threaded form raises exactly when the single-threaded form does, and the SAME failure
+   (the first failing task in submission order), whatever the completion order; without a failure every completion order
+   leaves the values of the single-threaded form *)
+Theorem C12_writers_failure_as_sequential : forall submitted completed d0,
+  Permutation submitted completed -> NoDup (map fst submitted) ->
+  match run_writes_st submitted d0 with
+  | WRaised e => run_writes_mt submitted completed d0 = WRaised e
+  | WDone d1 => exists d2, run_writes_mt submitted completed d0 = WDone d2 /\ forall q, aget d2 q = aget d1 q
+  end.
+Proof. exact writers_failure_as_sequential. Qed.
+Print Assumptions C12_writers_failure_as_sequential.
+
+Theorem C12_writers_mt_raises_iff : forall submitted completed d0 e,
+  run_writes_mt submitted completed d0 = WRaised e <-> run_writes_st submitted d0 = WRaised e.
+Proof. exact writers_mt_raises_iff. Qed.
+Print Assumptions C12_writers_mt_raises_iff.
 
 (* ================================================================= non-vacuity *)
 Example C12_ex_partition :
@@ -377,6 +415,31 @@ Proof.
   - intros id H. do 4 (destruct id as [|id]; [cbn; tauto|]). lia.
   - repeat split; try (vm_compute; reflexivity); try (cbn; intuition congruence).
     intros key i v ov. right. eexists _, _. reflexivity.
+Qed.
+
+Example C12_ex_meta :
+  let m0 := {| m_bs := [3]; m_names := Some ["a"]; m_dev := None; m_locked := false |} in
+  let self := MNode m0 (MCons "n" (MNode m0 MNil) MNil) in
+  let o := {| mo_bs := Some [3; 2]; mo_bs_size := true; mo_dev_obj := true; mo_inplace := false; mo_checked := true |} in
+  let m1 := {| m_bs := [3; 2]; m_names := Some ["t"; "u"]; m_dev := Some 0; m_locked := false |} in
+  let m2 := {| m_bs := [3; 2]; m_names := None; m_dev := Some 0; m_locked := false |} in
+  mt_meta o (Some (Some 0)) (Some (Some ["t"; "u"])) self None = MOk (MNode m1 (MCons "n" (MNode m2 MNil) MNil))
+  /\ st_meta o (Some (Some 0)) (Some (Some ["t"; "u"])) self None = MOk (MNode m1 (MCons "n" (MNode m2 MNil) MNil))
+  (* device given as a string, out= on the same device: refused unless checked *)
+  /\ mt_meta {| mo_bs := None; mo_bs_size := true; mo_dev_obj := false; mo_inplace := false; mo_checked := false |}
+             (Some None) None self (Some self) = MRaised MDevice.
+Proof. cbn zeta. repeat split; vm_compute; reflexivity. Qed.
+
+Example C12_ex_writer_failure :
+  let sub := [(["a"], inl 1%Z); (["b"], inr 7); (["c"], inl 3%Z); (["d"], inr 9)] in
+  let comp := [(["d"], inr 9); (["c"], inl 3%Z); (["a"], inl 1%Z); (["b"], inr 7)] in
+  run_writes_st sub [] = WRaised 7 /\ run_writes_mt sub comp [] = WRaised 7 /\ Permutation sub comp
+  /\ NoDup (map fst sub).
+Proof.
+  cbn zeta. repeat split; try reflexivity.
+  - apply Permutation_sym. apply (perm_trans (l' := [(["c"], inl 3%Z); (["d"], inr 9); (["a"], inl 1%Z); (["b"], inr 7)])); [apply perm_swap|].
+    apply (Permutation_app_comm [(["c"], inl 3%Z); (["d"], inr 9)] [(["a"], inl 1%Z); (["b"], inr 7)]).
+  - repeat constructor; cbn; intuition congruence.
 Qed.
 
 Example C12_ex_consolidate :
